@@ -403,6 +403,21 @@ func (e *Eval) heapWf(r Val) {
 	}
 }
 
+// typeArg resolves a type name argument: T (current package) or pkg.T.
+func (e *Eval) typeArg(a *Node) *ssa.Type {
+	switch {
+	case a.Op == "ident" && e.pkg != nil:
+		tn, _ := e.pkg.Members[a.Name].(*ssa.Type)
+		return tn
+	case a.Op == "sel" && a.Args[0].Op == "ident":
+		if p := e.findPkg(a.Args[0].Name); p != nil {
+			tn, _ := p.Members[a.Name].(*ssa.Type)
+			return tn
+		}
+	}
+	return nil
+}
+
 func (e *Eval) findPkg(name string) *ssa.Package {
 	if e.pkg == nil {
 		return nil
@@ -506,6 +521,12 @@ func (e *Eval) call(n *Node) Val {
 			return c.eval(args[0])
 		case "len", "cap":
 			v := e.eval(args[0])
+			if v.Typ == nil && v.Sort == "Slice" {
+				if nm == "cap" {
+					return Val{T: "(s_cap " + v.T + ")", Sort: "Int"}
+				}
+				return Val{T: "(s_len " + v.T + ")", Sort: "Int"}
+			}
 			if v.Typ == nil {
 				e.fail("len of ghost value")
 			}
@@ -677,15 +698,15 @@ func (e *Eval) call(n *Node) Val {
 			}
 			key := x.memKey(pt.Elem())
 			return Val{T: fmt.Sprintf("(select %s %s)", x.get(e.st, key), v.T), Typ: pt.Elem(), Addr: &Addr{Kind: "cell", Key: key, Ref: v.T}}
-		case "ptrslice":
-			// ptrslice(g, T): view a ghost slice value as []*T
+		case "ptrslice", "valslice":
+			// ptrslice(g, T): view a ghost slice value as []*T; valslice(g, T): as []T (T or pkg.T)
 			v := e.eval(args[0])
-			var tn *ssa.Type
-			if args[1].Op == "ident" && e.pkg != nil {
-				tn, _ = e.pkg.Members[args[1].Name].(*ssa.Type)
-			}
+			tn := e.typeArg(args[1])
 			if tn == nil {
-				e.fail("ptrslice: unknown type %s", args[1])
+				e.fail("%s: unknown type %s", nm, args[1])
+			}
+			if nm == "valslice" {
+				return Val{T: v.T, Typ: types.NewSlice(tn.Type())}
 			}
 			return Val{T: v.T, Typ: types.NewSlice(types.NewPointer(tn.Type()))}
 		case "stored":
@@ -726,6 +747,11 @@ func (e *Eval) call(n *Node) Val {
 			v := e.eval(args[0])
 			x.declBox("Real")
 			return Val{T: "(unbox_Real (i_val " + v.T + "))", Sort: "Real"}
+		case "unboxslice":
+			// unboxslice(i): the slice held by interface value i
+			v := e.eval(args[0])
+			x.declBox("Slice")
+			return Val{T: "(unbox_Slice (i_val " + v.T + "))", Sort: "Slice"}
 		case "unboxInt":
 			v := e.eval(args[0])
 			return Val{T: "(i_val " + v.T + ")", Sort: "Int"}
